@@ -809,6 +809,25 @@ pub fn check_c08(case: &RCase, log: &RunLog, m: &Modelled) -> Vec<Violation> {
                     }
                 }
             }
+            // H4: the moment a finally failing attempt queued its notification. The main loop reads
+            // every queued notification before it asks for the next batch, so no batch is
+            // dispatched from then on - however many other completions are queued ahead of it.
+            for a in m.attempts.iter().filter(|a| a.is_final() && a.finished.is_some() && attempt_failed_observed(a, log)) {
+                let Some(n) = disp_of(a).and_then(|d| log.notified.iter().find(|o| o.id == d.id)) else { continue };
+                if n.retried || !n.failed {
+                    continue;
+                }
+                if let Some(d) = log.dispatched.iter().find(|d| d.batch >= n.next_batch) {
+                    out.push(v(
+                        "C08/dispatch-after-failure-announced",
+                        format!(
+                            "attempt {} {:?} was dispatched (batch {}) after {} {:?} had failed finally, emitted its Finished event and announced that to the main loop (next batch then: {})",
+                            d.scenario, d.retries, d.batch, a.scenario, a.retries, n.next_batch
+                        ),
+                    ));
+                    break;
+                }
+            }
             // stream level: attempts that begin after the failure's Finished were dispatched
             // before it was observed, hence together with still running ones: fewer than the limit.
             let late = m.attempts.iter().filter(|a| a.started.is_some_and(|s| s > p)).count();
